@@ -17,7 +17,7 @@
 // User events: JS/JE job body start/end (scheduling points), ENQ/LE/LT/TERM call markers and LER (return of
 // loop_until_empty; argument = number of job bodies whose effect is visible to the caller) as notes; CD j = the closure of
 // job j (its captured token) was destroyed; IT p = InitThread hook of worker p; SZ/DONE/IDLE/HAS/THR = observed size()/done()/idle()/
-// has_idle()/thread(i) results.  The pool's "EXCEPTION: ..." line on std::cerr is discarded.
+// has_idle()/thread(i) results; LDONE v = done() read right after a loop_until_empty return; DTOR = the destructor is about to run.  The pool's "EXCEPTION: ..." line on std::cerr is discarded.
 #include <cstdio>
 #include <cstdlib>
 #include <cstring>
@@ -147,7 +147,9 @@ static void run_cops(const std::vector<Op>& ops) {
         case 'L': {
             s.note("LE"); g_pool->loop_until_empty();
             long sum = 0; for (int i = 0; i < 4096; ++i) sum += g_ran[i];      // what the caller sees at the return
-            s.note("LER", sum); break; }
+            s.note("LER", sum);
+            { size_t d = g_pool->done(); s.note("LDONE", static_cast<long long>(d)); }    // completed-job count through the public API
+            break; }
         case 'T': s.note("LT"); g_pool->loop_until_terminate(); break;
         case 'X': do_terminate(); break;
         case 'D': { size_t d = g_pool->done(); s.note("DONE", static_cast<long long>(d)); break; }
@@ -189,6 +191,7 @@ static int child_main(Scenario& sc) {
         for (auto& t : cl) t.join();
     }
     g_pool_alive = false;
+    s.note("DTOR");
     g_pool->~ThreadPool();
     std::string trace = s.end();
     printf("OK %s\n", trace.c_str());
